@@ -170,14 +170,19 @@ class EmitterStep(Harness):
     prop = 'C20'
     doc = 'one operation (with one re-entrant operation inside callbacks) from an arbitrary emitter state equals the reference model'
     functions = ('tinyemitter.Emitter.on', 'tinyemitter.Emitter.once', 'tinyemitter.Emitter.off', 'tinyemitter.Emitter.emit')
-    bounds = 'two event names; <=3 listeners on the first, <=1 on the second; callback identities symbolic in a pool of 3; ' \
+    bounds = 'two event names; <=3 listeners on the first, <=1 on the second (thorough: <=4 and <=2); callback identities symbolic in a pool of 3; ' \
              'contexts {k: symbolic int}; one operation, re-entrancy depth 1 (one acting callback, acting once)'
     outside = ('listener lists longer than 3', 'callbacks raising exceptions', 'nesting deeper than 1')
 
     def cases(self, tier):
         out = []
-        for ia, sa in enumerate(SHAPES_A):
-            for ib, sb in enumerate(SHAPES_B):
+        shapes_a, shapes_b = SHAPES_A, SHAPES_B
+        if tier == 'thorough':
+            import itertools
+            shapes_a = SHAPES_A + [list(t) for t in itertools.product('po', repeat=4)]
+            shapes_b = SHAPES_B + [[k1, k2] for k1 in 'po' for k2 in 'po']
+        for ia, sa in enumerate(shapes_a):
+            for ib, sb in enumerate(shapes_b):
                 if tier == 'quick' and ib and len(sa) == 3:
                     continue
                 out.append({'a': ''.join(sa), 'b': ''.join(sb)})
